@@ -127,6 +127,91 @@ impl Group for PathOk {
     }
 }
 
+/// the whole of sanitize_request: an unsafe path is rejected whatever other headers the request carries
+pub struct San;
+impl Group for San {
+    fn name(&self) -> &'static str {
+        "c01.san"
+    }
+    fn rule(&self) -> &'static str {
+        "utils::sanitize_request on targets from the c01 alphabet combined with Range headers (valid single ranges, inverted, malformed, multi, absent): unsafe paths must be rejected (400) for every header; compared with pathOk + the C09 range model; non-trivial = unsafe target together with a well-formed range"
+    }
+    fn generate(&self, ctx: &Ctx, rng: &mut Rng) -> Vec<String> {
+        let ranges = ["bytes=0-4095", "bytes=0-0", "bytes=5-2", "bytes=1-", "items=0-1", "bytes=0-1,2-3", "bytes=0-18446744073709551615"];
+        let mut v = Vec::new();
+        for t in ["/../secret.txt", "/%2e%2e/secret.txt", "/%2E%2E%2Fsecret.txt", "/./cors_fail", "//abs", "/a/../../x", "/ok", "/a/b.html", "/..", "/a/%2e%2e/x"] {
+            for r in ranges {
+                v.push(format!("c01.san {} {}", hex(t.as_bytes()), hex(r.as_bytes())));
+            }
+            v.push(format!("c01.san {} none", hex(t.as_bytes())));
+        }
+        let n = if ctx.mode == Mode::Quick { 3000 } else { 100_000 };
+        for _ in 0..n {
+            let r = if rng.chance(1, 5) { "none".to_owned() } else { hex(rng.pick(&ranges).as_bytes()) };
+            v.push(format!("c01.san {} {r}", hex(gen_target(rng, &TOKS).as_bytes())));
+        }
+        v
+    }
+    fn run_impl(&self, _ctx: &Ctx, line: &str) -> String {
+        let p: Vec<&str> = line.split(' ').collect();
+        let t = unhex(p[1]).unwrap();
+        let Ok(uri) = Uri::try_from(&t[..]) else { return "not-a-uri".into() };
+        if uri.path().as_bytes() != &t[..] {
+            return "not-a-uri".into();
+        }
+        let mut b = Request::builder().uri(uri);
+        if p[2] != "none" {
+            b = b.header("range", HeaderValue::from_bytes(&unhex(p[2]).unwrap()).unwrap());
+        }
+        let req = b.body(()).unwrap();
+        match kvarn_utils::parse::sanitize_request(&req) {
+            Ok(c) => match c.get_range() { Some((a, e)) => format!("ok {a}-{e}"), None => "ok".into() },
+            Err(kvarn_utils::parse::SanitizeError::UnsafePath) => "400".into(),
+            Err(kvarn_utils::parse::SanitizeError::RangeNotSatisfiable) => "416".into(),
+        }
+    }
+    fn inconclusive(&self, out: &str) -> bool {
+        out == "not-a-uri"
+    }
+    fn oracle(&self, _ctx: &Ctx, line: &str, out: &str) -> Option<(String, String)> {
+        // statement: decoded path with `./`, not rooted, or absolute after the slash => 400, whatever the headers
+        let p: Vec<&str> = line.split(' ').collect();
+        let t = unhex(p[1]).unwrap();
+        let dec: Vec<u8> = percent_decode_lossless(&t);
+        let unsafe_path = dec.windows(2).any(|w| w == b"./") || dec.first() != Some(&b'/') || dec.get(1) == Some(&b'/');
+        if unsafe_path && out != "400" && out != "not-a-uri" {
+            return Some((format!("unsafe-accepted:{}:{}", String::from_utf8_lossy(&t), p[2]), format!("unsafe target accepted by sanitize_request: {out}")));
+        }
+        None
+    }
+    fn nontrivial(&self, line: &str, o: &str) -> bool {
+        o == "400" && !line.ends_with(" none")
+    }
+    fn classify(&self, _l: &str, o: &str) -> String {
+        o.split(' ').next().unwrap_or("").to_owned()
+    }
+}
+
+/// independent decoder for the oracle: `%XX` -> byte; if the result is not UTF-8 the raw string is what is checked
+fn percent_decode_lossless(t: &[u8]) -> Vec<u8> {
+    let mut out = Vec::new();
+    let mut i = 0;
+    while i < t.len() {
+        if t[i] == b'%' && i + 2 < t.len() + 0 && i + 2 <= t.len() - 1 + 0 {
+            let h = (t[i + 1] as char).to_digit(16);
+            let l = (t[i + 2] as char).to_digit(16);
+            if let (Some(h), Some(l)) = (h, l) {
+                out.push((h * 16 + l) as u8);
+                i += 3;
+                continue;
+            }
+        }
+        out.push(t[i]);
+        i += 1;
+    }
+    if std::str::from_utf8(&out).is_ok() { out } else { t.to_vec() }
+}
+
 pub struct Read {
     rt: tokio::runtime::Runtime,
     hosts: Vec<Host>,
@@ -175,11 +260,14 @@ impl Group for Read {
                     v.push(format!("c01.rel {h} {m} {}", hex(t.as_bytes())));
                 }
             }
+            // the same with a well-formed Range header and other headers attached
+            v.push(format!("c01.rel 0 GET {} R", hex(t.as_bytes())));
         }
         let n = if ctx.mode == Mode::Quick { 2500 } else { 100_000 };
         for _ in 0..n {
             let m = *rng.pick(&["GET", "GET", "GET", "HEAD", "POST", "OPTIONS"]);
-            v.push(format!("c01.rel {} {m} {}", rng.below(4), hex(gen_target(rng, &TOKS).as_bytes())));
+            let extra = if rng.chance(1, 3) { " R" } else { "" };
+            v.push(format!("c01.rel {} {m} {}{extra}", rng.below(4), hex(gen_target(rng, &TOKS).as_bytes())));
         }
         v
     }
@@ -191,7 +279,11 @@ impl Group for Read {
         if uri.path().as_bytes() != &t[..] {
             return "not-a-uri".into();
         }
-        let mut req = Request::builder().method(p[2]).uri(uri).body(kvarn::application::Body::Bytes(Bytes::new().into())).unwrap();
+        let mut b = Request::builder().method(p[2]).uri(uri);
+        if p.get(4) == Some(&"R") {
+            b = b.header("range", "bytes=0-4095").header("accept-encoding", "gzip").header("if-modified-since", "Sun, 06 Nov 1994 08:49:37 GMT");
+        }
+        let mut req = b.body(kvarn::application::Body::Bytes(Bytes::new().into())).unwrap();
         let addr: SocketAddr = "10.0.0.7:1234".parse().unwrap();
         let reply = self.rt.block_on(kvarn::handle_cache(&mut req, addr, &self.hosts[h]));
         let body = String::from_utf8_lossy(&reply.identity_body).into_owned();
@@ -206,6 +298,14 @@ impl Group for Read {
     fn oracle(&self, _ctx: &Ctx, line: &str, out: &str) -> Option<(String, String)> {
         if out == "panic" {
             return Some((format!("panic:{line}"), "handle_cache panicked".into()));
+        }
+        {
+            let t = unhex(line.split(' ').nth(3).unwrap()).unwrap();
+            let dec = percent_decode_lossless(&t);
+            let unsafe_path = dec.windows(2).any(|w| w == b"./") || dec.first() != Some(&b'/') || dec.get(1) == Some(&b'/');
+            if unsafe_path && !out.starts_with("400") && out != "not-a-uri" {
+                return Some((format!("unsafe-served:{line}"), format!("an unsafe target was not answered 400: {out}")));
+            }
         }
         if out.contains("SENTINEL") {
             return Some((format!("escape:{line}"), format!("content of a file outside the public directory was returned: {out}")));
